@@ -65,7 +65,10 @@ class ProblemExporter:
         :param goal_state_fluents: the numeric expressions in the goal state.
         """
         predicates_str = self.extract_state_predicates(goal_state_predicates)
-        goal_fluents = [fluent.to_pddl() for fluent in goal_state_fluents]
+        # the goal thresholds are written exactly - a rounded threshold is a different goal.
+        goal_fluents = [
+            fluent.to_pddl(decimal_digits=None) for fluent in goal_state_fluents
+        ]
 
         joint_goal = "\n\t\t".join([predicates_str, *goal_fluents])
         return f"(:goal\n\t(and\n\t{joint_goal}\t\t\n)\n)\n"
